@@ -790,6 +790,15 @@ func (e *Env) evalCall(n ECall, hint types.Type) TV {
 			return TV{term: fmt.Sprintf("(sref %s)", a.term), typ: vc.mathint}
 		}
 		return TV{term: a.term, typ: vc.mathint}
+	case "rawat":
+		// rawat(s, k): the element at absolute index k of the backing array of slice s
+		a := e.eval(n.Args[0], nil)
+		sl, ok := a.typ.Underlying().(*types.Slice)
+		if !ok {
+			e.fail("rawat on non-slice")
+		}
+		i := e.coerce(e.eval(n.Args[1], types.Typ[types.Int]), types.Typ[types.Int])
+		return TV{term: fmt.Sprintf("(select (select %s (sref %s)) %s)", e.st.get(vc.arrHeapVar(sl.Elem())), a.term, vc.convertIdx(i)), typ: sl.Elem()}
 	case "off":
 		a := e.eval(n.Args[0], nil)
 		return TV{term: fmt.Sprintf("(soff %s)", a.term), typ: types.Typ[types.Int]}
